@@ -534,7 +534,8 @@ func (x *Exec) upperBound(t *smt.Term, what string) int {
 			return int(k)
 		}
 	}
-	x.M.Inconclusive("unwind.size", what+": symbolic length without small bound")
-	x.M.EndPath("unwind")
-	return 0
+	// no small bound: stand in with a large block; accesses beyond it are
+	// reported inconclusive by the memory model (Alloc.Huge)
+	x.hugeNext = true
+	return 1 << 16
 }
